@@ -7,6 +7,12 @@ D: WireName.tla (the name reader, one action per loop arm) satisfies C01_Termina
    every start offset (TLC, exhaustive).
 R: Gen_WireName prints every (buffer, start) with that meaning; Name::read must agree on ok/err,
    labels (case-exact) and the offset behind the name.
+R2: GrammarOps.tla holds the wire grammar of 41 record types as data (fields, boundary variants of
+   every field incl. EDNS options and SVCB parameters, well-formed or not); Gen_Grammar unfolds it
+   into records in every message context (opcode x section x class x RDLENGTH policy x position);
+   the driver serialises primitives only; Message::from_vec, server Request::from_bytes,
+   Record::read and RData::read are judged by Trace_Grammar: no panic, no hang, CPU budget linear
+   in the length, name limits.
 T: a corpus of valid messages of every RDATA type the library can build, mutated (bit flips, length
    and count edits, truncation, splices, deletions, insertions), random bytes and adversarial
    64 KiB packets (30,000-hop pointer chains, pointer loops, 255/256-octet names, 65,535 claimed
@@ -18,6 +24,7 @@ import json
 import os
 
 import vlib
+from checks import grammar_common
 
 BINS = ["drive_wire"]
 LEVEL = "model_checking"
@@ -48,7 +55,7 @@ def run(res, tier, seed):
     vlib.write_ndjson(cpath, cases)
     vpath = os.path.join(wd, "names.verdicts.ndjson")
     vlib.run_driver("drive_wire", ["replay-names"], stdin_path=cpath, stdout_path=vpath)
-    n = ok_names = lenient = refused_valid = 0
+    n = ok_names = lenient = refused_valid = hung = 0
     for v in vlib.read_ndjson(vpath):
         n += 1
         res.evaluations += 1
@@ -59,6 +66,9 @@ def run(res, tier, seed):
         obs = v["observed"]
         if obs.get("error") == "PANIC":
             res.mismatch("panic", {"entry": "name"}, v)
+        elif obs.get("error") == "HANG":
+            hung += 1
+            res.mismatch("hang", {"entry": "name"}, v)
         elif obs["ok"]:
             # C01 judges totality and the limits only; whether a VALID name is decoded to the right
             # labels is C02/C04's business (lib/checks/c02.py replays the same cases strictly), and
@@ -74,12 +84,14 @@ def run(res, tier, seed):
             refused_valid += 1
         if v["ok"] and v["input"]["ok"] and v["nontrivial"]:
             res.sample({"buf": v["input"]["buf"], "start": v["input"]["start"], "labels": v["input"]["labels"]}, cap=2)
-    if n != len(cases) or ok_names == 0:
+    if (n != len(cases) and not hung) or ok_names == 0:
         raise vlib.ToolError("name replay lost cases or has no valid name")
     res.traces += n
     res.exhaustive = True
     res.extra["names_accepted_although_spec_refuses"] = lenient
     res.extra["valid_names_refused (judged by C02)"] = refused_valid
+    # ---- R2: the record grammar (every type x field x variant x message context)
+    grammar_common.run(res, "C01", tier, "c01g")
     # ---- T
     n_rand = 400000 if tier == "thorough" else 6000
     tpath = os.path.join(wd, "decode.trace.ndjson")
